@@ -50,6 +50,7 @@ class Prog:
         self.scopes: list[Scope] = []
         self.stack: list[int] = []
         self.vars = []  # (name, scope id, stmt index, type text)
+        self.links = []  # (owner kind, owner name, target name): bindings the index must resolve
 
     # --------------------------------------------------------------------------------- building
     def _open(self, kind, name, text, label=None):
@@ -171,11 +172,15 @@ N_EXEC = len(EXEC_ITEMS)
 def add_type(p: Prog, k: int, ev: int, with_binding: bool, parent: str | None = None):
     ext = f", extends({parent})" if parent else ""
     p._open("type", f"t{k}", f"type{ext} :: t{k}")
+    if parent:
+        p.links.append(("extends", f"t{k}", parent))
     p.var(f"c{k}")
     if with_binding:
         p.stmt("contains", kind="contains")
         i = p.stmt(f"procedure :: m{k} => s{k}", kind="binding")
         p.scopes[p.stack[-1]].members.append((f"m{k}", "method", i))
+        p.vars.append((f"m{k}", p.stack[-1], i, "procedure"))
+        p.links.append(("method", f"m{k}", f"s{k}"))
     p.end(ev)
 
 
@@ -184,6 +189,7 @@ def add_interface(p: Prog, k: int, ev: int, form: int):
     if form == 0:
         p._open("interface", f"g{k}", f"interface g{k}")
         p.stmt(f"module procedure s{k}")
+        p.links.append(("generic", f"g{k}", f"s{k}"))
         p.end(ev)
     else:
         p._open("interface", "#GEN_INT", "abstract interface" if form == 1 else "interface")
@@ -220,7 +226,8 @@ class Layout:
 
     def __init__(self, form="free", case=0, blank_before=None, comment_before=None, trail_blank=False,
                  trail_comment=None, split=None, lead_amp=False, join=None, indent=2, eol="\n", fixed_cchar="C",
-                 fixed_cont="&"):
+                 fixed_cont="&", cont_gap=None):
+        self.cont_gap = cont_gap              # a blank / whitespace-only / comment line between continuation lines
         self.form, self.case = form, case
         self.blank_before = blank_before      # stmt index before which a blank line is inserted (or None)
         self.comment_before = comment_before  # stmt index before which an ordinary comment line is inserted
@@ -273,9 +280,13 @@ def layout(p: Prog, lay: Layout):
             first, second = "".join(toks[:k]), "".join(toks[k:])
             if fixed:
                 lines.append(ind + first)
+                if lay.cont_gap is not None:
+                    lines.append(lay.fixed_cchar + lay.cont_gap if lay.cont_gap.strip() else lay.cont_gap)
                 lines.append("     " + lay.fixed_cont + " " * len(ind[6:]) + second)
             else:
                 lines.append(ind + first + " &")
+                if lay.cont_gap is not None:
+                    lines.append(lay.cont_gap)
                 lines.append(ind + ("& " if lay.lead_amp else "  ") + second)
         elif lay.join == i and i + 1 < n and not fixed and not p.sts[i + 1].label and p.sts[i + 1].kind != "x":
             nxt = p.sts[i + 1]
